@@ -323,46 +323,64 @@ func (r *c10Run) thirdParty() {
 	}
 	// 3. share allowances: at most the allowance, reduced by exactly the amount moved
 	st := fix.PrecompileStaking()
-	v0 := e.Vals[0]
-	for _, tc := range []struct {
-		allow, move int64
-	}{{0, 10}, {50, 51}, {50, 50}, {80, 30}} {
-		ctx := c.Branch()
-		if tc.allow > 0 {
-			if er := c.EthTxOn(ctx, e.Victim, &st, fix.StakingPack("approveShares", v0.String(), e.Caller.Hex(), chain.FX(tc.allow).BigInt()), nil, 0); er.Failed() {
-				r.res.Inconclusive = "approve: " + er.VmError()
+	// once on a validator whose shares are worth one token each, once on a validator that has been
+	// slashed for a double sign (a share is worth less than a token: allowances are in shares)
+	for pass, v0 := range []sdk.ValAddress{e.Vals[0], e.Vals[1]} {
+		if pass == 1 {
+			c.DoubleSign(1)
+			for i := 0; i < 2; i++ {
+				if _, err := c.Next(); err != nil {
+					r.res.Inconclusive = "block: " + err.Error()
+					return
+				}
+			}
+			val, _ := c.App.StakingKeeper.GetValidator(c.Ctx, v0)
+			if val.TokensFromShares(sdkmath.LegacyOneDec()).Equal(sdkmath.LegacyOneDec()) {
+				r.res.Inconclusive = "validator 1 was not slashed"
 				return
 			}
+			r.res.Count("slashed_validator_passes", 1)
 		}
-		vb := r.portfolio(ctx, e.Victim.Hex())
-		er := c.EthTxOn(ctx, e.Caller, &st, fix.StakingPack("transferFromShares", v0.String(), e.Victim.Hex(), e.Caller.Hex(), chain.FX(tc.move).BigInt()), nil, 0)
-		va := r.portfolio(ctx, e.Victim.Hex())
-		ok := !er.Failed()
-		r.judged++
-		r.res.Count("third_party_calls_judged", 1)
-		key := v0.String() + "|" + e.Caller.Hex().Hex()
-		if tc.move > tc.allow {
-			if ok || len(decreased(vb, va)) > 0 {
-				r.res.Violate("C10/transfer-beyond-allowance", "transferFromShares of %d with allowance %d: ok=%v, victim changes: %v", tc.move, tc.allow, ok, decreased(vb, va))
+		for _, tc := range []struct {
+			allow, move int64
+		}{{0, 10}, {50, 51}, {50, 50}, {80, 30}} {
+			ctx := c.Branch()
+			if tc.allow > 0 {
+				if er := c.EthTxOn(ctx, e.Victim, &st, fix.StakingPack("approveShares", v0.String(), e.Caller.Hex(), chain.FX(tc.allow).BigInt()), nil, 0); er.Failed() {
+					r.res.Inconclusive = "approve: " + er.VmError()
+					return
+				}
 			}
-			continue
-		}
-		if !ok {
-			r.res.Violate("C10/allowed-transfer-refused", "transferFromShares of %d with allowance %d failed: %s", tc.move, tc.allow, er.VmError())
-			continue
-		}
-		r.res.Count("allowance_transfers_ok", 1)
-		moved := vb.Shares[v0.String()].Sub(va.Shares[v0.String()])
-		allowDelta := new(big.Int).Sub(vb.Allow[key], va.Allow[key])
-		want := sdkmath.LegacyNewDecFromInt(chain.FX(tc.move))
-		if !moved.Equal(want) || allowDelta.Cmp(chain.FX(tc.move).BigInt()) != 0 {
-			r.res.Violate("C10/allowance-accounting", "transferFromShares of %d with allowance %d moved %s shares and reduced the allowance by %s", tc.move, tc.allow, moved, allowDelta)
-		}
-		// nothing else of the victim may shrink
-		va.Shares[v0.String()] = vb.Shares[v0.String()]
-		va.Allow[key] = vb.Allow[key]
-		if dec := decreased(vb, va); len(dec) > 0 {
-			r.res.Violate("C10/allowance-transfer-took-more", "an allowed share transfer also reduced: %v", dec)
+			vb := r.portfolio(ctx, e.Victim.Hex())
+			er := c.EthTxOn(ctx, e.Caller, &st, fix.StakingPack("transferFromShares", v0.String(), e.Victim.Hex(), e.Caller.Hex(), chain.FX(tc.move).BigInt()), nil, 0)
+			va := r.portfolio(ctx, e.Victim.Hex())
+			ok := !er.Failed()
+			r.judged++
+			r.res.Count("third_party_calls_judged", 1)
+			key := v0.String() + "|" + e.Caller.Hex().Hex()
+			if tc.move > tc.allow {
+				if ok || len(decreased(vb, va)) > 0 {
+					r.res.Violate("C10/transfer-beyond-allowance", "transferFromShares of %d with allowance %d: ok=%v, victim changes: %v", tc.move, tc.allow, ok, decreased(vb, va))
+				}
+				continue
+			}
+			if !ok {
+				r.res.Violate("C10/allowed-transfer-refused", "transferFromShares of %d with allowance %d failed: %s", tc.move, tc.allow, er.VmError())
+				continue
+			}
+			r.res.Count("allowance_transfers_ok", 1)
+			moved := vb.Shares[v0.String()].Sub(va.Shares[v0.String()])
+			allowDelta := new(big.Int).Sub(vb.Allow[key], va.Allow[key])
+			want := sdkmath.LegacyNewDecFromInt(chain.FX(tc.move))
+			if !moved.Equal(want) || allowDelta.Cmp(chain.FX(tc.move).BigInt()) != 0 {
+				r.res.Violate("C10/allowance-accounting", "transferFromShares of %d with allowance %d moved %s shares and reduced the allowance by %s", tc.move, tc.allow, moved, allowDelta)
+			}
+			// nothing else of the victim may shrink
+			va.Shares[v0.String()] = vb.Shares[v0.String()]
+			va.Allow[key] = vb.Allow[key]
+			if dec := decreased(vb, va); len(dec) > 0 {
+				r.res.Violate("C10/allowance-transfer-took-more", "an allowed share transfer also reduced: %v", dec)
+			}
 		}
 	}
 }
